@@ -714,13 +714,10 @@ def d61_report(c, binp, mdef_line):
                        "of the words in the dictionary", "patch": "fixes/D61-single-phone-ids-in-diphone-rows.patch"}
     c.cov["D61_silence_rows"] = {"rows_still_written_by_populate_lrdiph": tol, "witness_found": bool(bad),
                                  "first": bad[0][1] if bad else None}
-    listed = [k for k in vlib.known_findings() if k.get("property") == "C16" and k.get("key") == D61_KEY]
-    if listed and bad:
+    if bad:
+        # D61 is repaired in /repo (fix commit 1d126fe): if the stores ever return this is a violation again
+        # (downgraded to KNOWN-FINDING only if the coordinator lists the key as an open finding)
         c.violation(witness, True, tag="d61", finding_key=D61_KEY)
-    elif bad:
-        c.assumptions.append("OPEN DEFECT D61 (reported to the coordinator, patch in fixes/): populate_lrdiph stores single-phone-word ids "
-                             "into the silence rows; model and theorem follow the regenerated constants and exclude those rows until the "
-                             f"patch is applied or the finding {D61_KEY} is listed")
 
 
 def run_both(c, binp, ops, timeout=900, model=True):
